@@ -463,17 +463,17 @@ def grid_nest(tier):
 
 
 SUBS = [
-    Sub("canon-for", lambda tier: strat(tier, "canon", [CANON]), prop, budget=dict(quick=2600, thorough=60000),
-        floor=dict(quick=1, thorough=1),
+    Sub("canon-for", lambda tier: strat(tier, "canon", [CANON]), prop, budget=dict(quick=2600, thorough=40000),
+        floor=dict(quick=70, thorough=1100),
         nontrivial_rule="pipeline-canonicalize-for changed the (op, loop depth) profile and a loop body ran >= 2 times"),
-    Sub("reuse-allocs", lambda tier: strat(tier, "reuse", [REUSE]), prop, budget=dict(quick=2200, thorough=50000),
-        floor=dict(quick=1, thorough=1),
+    Sub("reuse-allocs", lambda tier: strat(tier, "reuse", [REUSE]), prop, budget=dict(quick=2200, thorough=36000),
+        floor=dict(quick=180, thorough=3000),
         nontrivial_rule="reuse-memref-allocs moved or replaced an op and a loop body ran >= 2 times"),
-    Sub("pipeline-order", lambda tier: strat(tier, "both", [REUSE, CANON]), prop, budget=dict(quick=1400, thorough=40000),
-        floor=dict(quick=1, thorough=1),
+    Sub("pipeline-order", lambda tier: strat(tier, "both", [REUSE, CANON]), prop, budget=dict(quick=1400, thorough=24000),
+        floor=dict(quick=60, thorough=1200),
         nontrivial_rule="either pass changed the module and a loop body ran >= 2 times"),
-    Sub("grid-single-loop", None, prop, budget=dict(quick=0, thorough=0), exhaustive=grid_single, exhaustive_only=True,
+    Sub("grid-single-loop", None, prop, budget=dict(quick=0, thorough=0), exhaustive=grid_single, exhaustive_only=True, floor=dict(quick=3, thorough=3),
         nontrivial_rule="step normalisation applied and the loop ran >= 2 times"),
-    Sub("grid-nests", None, prop, budget=dict(quick=0, thorough=0), exhaustive=grid_nest, exhaustive_only=True,
+    Sub("grid-nests", None, prop, budget=dict(quick=0, thorough=0), exhaustive=grid_nest, exhaustive_only=True, floor=dict(quick=35, thorough=35),
         nontrivial_rule="loops merged or steps normalised and a loop ran >= 2 times"),
 ]
